@@ -158,9 +158,7 @@ func runWorker(prop, tier, shardS, nshardsS, dir string) int {
 		// recovered inside Ctx.Call): report the check as broken, accuse nobody
 		defer func() {
 			if r := recover(); r != nil {
-				buf := make([]byte, 4096)
-				buf = buf[:runtime.Stack(buf, false)]
-				ctx.Broken(fmt.Sprintf("harness panic in shard %d: %v\n%s", shard, r, buf))
+				guardRecovered(ctx, r, fmt.Sprintf("shard %d", shard))
 			}
 		}()
 		m.Run(ctx)
@@ -238,6 +236,61 @@ func caseWatchdog(limit int) {
 	}
 }
 
+// guardRecovered decides what a panic that escaped a monitor means.  Monitors wrap the calls
+// they judge in Ctx.Call; the cheap reads around them (getters, SearchParams look-ups) are
+// called directly.  If the panic was raised inside the library (the innermost non-runtime
+// frame below panic() belongs to the module under test), the call did not return normally:
+// that is a violation of the property being monitored, reported with the current case.
+// Anything else is a defect of the harness itself: the check is broken and accuses nobody.
+func guardRecovered(ctx *Ctx, r any, where string) {
+	buf := make([]byte, 64<<10)
+	buf = buf[:runtime.Stack(buf, false)]
+	if fn := panicOrigin(string(buf)); strings.HasPrefix(fn, "github.com/nlnwa/whatwg-url/") && ctx.cur != nil {
+		ctx.Nontrivial()
+		ctx.Violate("the library panics in a call the monitor makes (outside the step-budgeted calls)", "returns normally", fmt.Sprint(r), "in "+fn+" ("+where+"; the rest of this shard's workload was not run)")
+		return
+	}
+	if len(buf) > 6000 {
+		buf = buf[:6000]
+	}
+	ctx.Broken(fmt.Sprintf("harness panic in %s: %v\n%s", where, r, buf))
+}
+
+// panicOrigin returns the function that raised the panic: the first frame below "panic(" that
+// is not part of the Go runtime.
+func panicOrigin(stack string) string {
+	lines := strings.Split(stack, "\n")
+	seen := false
+	for _, l := range lines {
+		if strings.HasPrefix(l, "\t") || l == "" {
+			continue
+		}
+		if strings.HasPrefix(l, "panic(") {
+			seen = true
+			continue
+		}
+		if !seen || strings.HasPrefix(l, "runtime.") || strings.HasPrefix(l, "runtime/") {
+			continue
+		}
+		if i := strings.LastIndexByte(l, '('); i > 0 {
+			return l[:i]
+		}
+		return l
+	}
+	return ""
+}
+
+// execGuarded runs one case; a panic that escapes is classified by guardRecovered.
+func execGuarded(ctx *Ctx, m Monitor, cs *Case, where string) {
+	defer func() {
+		if r := recover(); r != nil {
+			guardRecovered(ctx, r, where)
+		}
+	}()
+	ctx.Begin(cs)
+	m.Exec(ctx, cs)
+}
+
 // runSingle executes one case from a crash buffer alone (confirmation of a watchdog hit).
 func runSingle(prop, crashFile string) int {
 	m := registry[prop]
@@ -250,8 +303,7 @@ func runSingle(prop, crashFile string) int {
 	p := getPaths(prop)
 	kf, _ := LoadKnownFindings(p.known)
 	ctx := newCtx(prop, "quick", seedFromEnv(), 0, 1, kf)
-	ctx.Begin(cs)
-	m.Exec(ctx, cs)
+	execGuarded(ctx, m, cs, "single case")
 	if ctx.Res.ViolationCount > 0 {
 		return 1
 	}
@@ -335,8 +387,10 @@ func runReplay(prop, path string) int {
 	ctx := newCtx(prop, rf.Tier, rf.Seed, 0, 1, kf)
 	ctx.Replay = true
 	fmt.Printf("replaying %s: %s\n", prop, rf.Violation.Case.Brief())
-	ctx.Begin(rf.Violation.Case)
-	m.Exec(ctx, rf.Violation.Case)
+	execGuarded(ctx, m, rf.Violation.Case, "replay")
+	if len(ctx.Res.Broken) > 0 {
+		return brokenExit(prop, strings.Join(ctx.Res.Broken, "; "))
+	}
 	if ctx.Res.ViolationCount > 0 {
 		fmt.Printf("VIOLATION property=%s replay=%s\n", prop, path)
 		return 1
